@@ -9,13 +9,26 @@
 //! after the cut must equal R's outputs for that step (ordered), and the engine variables at the
 //! end must be equal.
 //!
-//! Signature = restore/<kind of the stream whose own output diverged first>/<fewer|more|different
-//! at the first diverging step>/<state component>, where the state component is found by running
-//! the cut again and diffing `create_checkpoint()` of the restored engine against R's checkpoint
-//! after the same number of steps (first differing schema path, data keys stripped), or
-//! `not-in-checkpoint` when the two engines' checkpoints never differ before the outputs do, or
-//! `timestamp-submillisecond` when the divergence disappears once every input timestamp is floored
-//! to whole milliseconds.
+//! Signatures (tuples over finite enumerations):
+//!   restore/<stream kind>/<how>/<component>      the usual form. <stream kind> = operator family of the
+//!       stream whose own output diverged first (window-<kind>[-partitioned][-watermark], sequence,
+//!       sequence-all-<last|middle>[-selfref], pattern-<and|seq|seq-kleene|seq-not>, join, distinct,
+//!       limit, ...); <how> = fewer | more | different | reordered at the first diverging step;
+//!       <component> = first differing schema path (data keys stripped, e.g. join_states.buffers,
+//!       sase_states.active_runs.captured, window_states.window_start_ms) between the stream's part
+//!       of `create_checkpoint()` of the restored engine and of R after the same number of steps
+//!       (the cut is run a second time for this), or `not-in-checkpoint` when the two engines'
+//!       checkpoints never differ before the outputs do (the lost state is not serialised at all).
+//!   restore/timestamp-submillisecond/<family>    the stream does not diverge (up to that step) once
+//!       every input timestamp is floored to whole milliseconds: precision lost in the checkpoint.
+//!   restore/on-watermark-advance/<how>/<component>   the first diverging step is an external
+//!       watermark advance (the window kind is not the discriminating feature there).
+//!   restore/codec-error, restore/restore-error, restore/panic/<file>, restore/variables/...
+//!
+//! Self-check: C19_PERTURB=limit|distinct|tumbling damages the deserialised checkpoint before the
+//! restore (limit counters zeroed / distinct keys reversed / window_start dropped), i.e. what a
+//! broken restore would do; the check must then report restore/limit/.., restore/distinct-lru-full/..,
+//! restore/window-tumbling../.. . `--replay FILE [--cut N|--all-cuts] [--floor-ms]` re-runs a witness.
 #[path = "../ckgen.rs"]
 mod ckgen;
 use ckgen::*;
@@ -300,12 +313,13 @@ fn first_divergence(c: &Case, r: &RefRun, cr: &CutRun, cut: usize) -> Option<Div
     None
 }
 
-/// Does stream `stream` diverge at or before step `upto` at cut `cut` of case `c`?
-/// (used for the ms-floored re-run)
-fn cut_diverges(c: &Case, program: &Program, cut: usize, stream: &str, upto: usize, rt: &tokio::runtime::Runtime) -> Option<bool> {
+/// Do the outputs of stream `stream` at step `at` differ between reference and restored engine at
+/// cut `cut` of case `c`? (used for the ms-floored re-run: the divergence seen at that step is
+/// attributed to timestamp precision when flooring every input timestamp makes it go away)
+fn diverges_at(c: &Case, program: &Program, cut: usize, stream: &str, at: usize, rt: &tokio::runtime::Runtime) -> Option<bool> {
     let r = reference(c, program, cut, rt).ok()?;
-    let cr = run_cut(c, program, &r.cps[&cut], cut, upto + 1, false, rt).ok()?;
-    Some(cr.outs.iter().enumerate().any(|(j, got)| per_stream(got, stream) != per_stream(&r.outs[cut + j], stream)))
+    let cr = run_cut(c, program, &r.cps[&cut], cut, at + 1, false, rt).ok()?;
+    Some(per_stream(cr.outs.last()?, stream) != per_stream(&r.outs[at], stream))
 }
 
 /// Operator family for the timestamp-precision signature.
@@ -411,7 +425,7 @@ fn check_case(c: &Case, only_cut: Option<usize>, out: &mut Partial, rt: &tokio::
             }
             if submillis {
                 let fl = c.floor_ms();
-                if let Ok(Some(false)) = catch(std::panic::AssertUnwindSafe(|| cut_diverges(&fl, &program, cut, &d.stream, d.step, rt))) {
+                if let Ok(Some(false)) = catch(std::panic::AssertUnwindSafe(|| diverges_at(&fl, &program, cut, &d.stream, d.step, rt))) {
                     comp = "timestamp-submillisecond".to_string();
                 }
             }
@@ -532,7 +546,7 @@ fn main() {
     install_quiet_panic_hook();
     watchdog("C19", args.pick(1500, 14400));
     let mut rep = Report::new("C19", "exploration", &args);
-    rep.rule = "programs of 1-4 streams (60% a single stateful stream) from a grammar: count / sliding-count / tumbling / sliding / session windows, plain and under .partition_by(k), optionally with .where before and after the window and declared .watermark/.allowed_lateness; 2-3 step sequences incl. `all` (last or middle; constant, earlier-alias and self-referencing filters), .partition_by, .not; named patterns (SEQ with NOT, AND, SEQ AND, B+); 2-way joins; distinct; limit; merge sources; filters and derived chains. Inputs: 8-24 (thorough 10-40) steps = events of types A/B/C/N (x in 0..4, k in 1..3; timestamps with ties, in 1/3 of the cases with 250us components, out-of-order in watermark cases), external watermark advances (declared sources or an API-registered source) and set_variable calls. EVERY cut 1..len-1 is executed: checkpoint of the reference engine after `cut` steps -> codec JSON -> fresh engine load + restore -> remaining steps; per-step ordered outputs and final variables compared. Plus one long case for the full distinct LRU (100000 keys). Non-trivial: cut whose checkpoint holds >=1 state item (buffered/captured event, distinct key, non-zero limit counter, source watermark) and with >=1 reference output after the cut; distinct by (program, steps, cut).".into();
+    rep.rule = "programs of 1-4 streams (65% a single stateful stream, of which 15% a watermarked time window with a lagging source and 10% a join with out-of-order input) from a grammar: count / sliding-count / tumbling / sliding / session windows, plain and under .partition_by(k), optionally with .where before and after the window and declared .watermark/.allowed_lateness; 2-3 step sequences incl. `all` (last or middle; constant, earlier-alias and self-referencing filters), .partition_by, .not; named patterns (SEQ with NOT, AND, SEQ AND, B+); 2-way joins; distinct; limit; merge sources; filters (also calling a user function) and derived chains. Inputs: 8-24 (thorough 10-40) steps = events of types A/B/C/N (x in 0..4, k in 1..3; timestamps with ties, in 2/5 of the cases with 250us components, out-of-order in watermark cases), external watermark advances (declared sources or an API-registered source) and set_variable calls. EVERY cut 1..len-1 is executed: checkpoint of the reference engine after `cut` steps -> codec JSON -> fresh engine load + restore -> remaining steps; per-step ordered outputs and final variables compared. Plus one long case for the full distinct LRU (100000 keys). Non-trivial: cut whose checkpoint holds >=1 state item (buffered/captured event, distinct key, non-zero limit counter, source watermark) and with >=1 reference output after the cut; distinct by (program, steps, cut).".into();
     rep.assume("outputs compared by stream name and data fields per input step, in order; emission wall-clock timestamps excluded; no `.within` (wall-clock) in generated programs");
     rep.assume("Engine::create_checkpoint(&self) does not modify the engine, so the reference engine doubles as the engine that is checkpointed at every cut");
 
